@@ -16,7 +16,8 @@ func TestC04(t *testing.T) {
 	run := h.NewRun("C04", "model_checking")
 	b := 1
 	n3 := []string{"n1", "n2", "n3"}
-	scs := []scOpt{corpusS3(n3, "1", "auto", b, canaryDev()), corpusS3(n3, "50%", "auto", b, canaryDev()), corpusS3(n3, "2", "manual", b, canaryDev())}
+	lean := &w.Alpha{Templates: []string{"C"}, Kubectl: []string{"canary-validate", "canary-fail"}, AddNodes: []string{"n9"}, DelNodes: true}
+	scs := []scOpt{corpusS3(n3, "1", "auto", b, canaryDev()), corpusS3([]string{"n1", "n2"}, "50%", "auto", b, canaryDev()), corpusS3(n3, "2", "manual", b, lean)}
 	if h.Thorough() {
 		n4 := []string{"n1", "n2", "n3", "n4"}
 		scs = []scOpt{corpusS3(n3, "1", "auto", 2, canaryDev()), corpusS3(n4, "50%", "auto", 2, canaryDev()), corpusS3(n4, "2", "manual", 1, canaryDev())}
